@@ -8,6 +8,7 @@ import (
 	"fmt"
 	"path"
 	"path/filepath"
+	"strings"
 
 	"github.com/spf13/cobra"
 
@@ -104,6 +105,10 @@ func parseFilePath(ruleOrFileName string, ctxt *context.Context) (string, error)
 
 	if len(candidates) > 1 {
 		return "", fmt.Errorf("found multiple test files matching argument %s: %v", ruleOrFileName, candidates)
+	}
+	// the argument may contain path elements: only files below the regression tests directory are test files
+	if !strings.HasPrefix(path.Clean(candidates[0]), path.Clean(ctxt.RegressionTestsDir())+"/") {
+		return "", fmt.Errorf("argument %s does not name a test file below %s", ruleOrFileName, ctxt.RegressionTestsDir())
 	}
 	return candidates[0], nil
 }
